@@ -253,11 +253,14 @@ const struct attr_ops num_files_ops = {
  * @param ctx   Dump file object.
  * @returns     Error status.
  */
+static kdump_status open_fdset_locked(kdump_ctx_t *ctx, unsigned nfds,
+				      const int *fds);
+
 static kdump_status
 file_fd_post_hook(kdump_ctx_t *ctx, struct attr_data *attr)
 {
 	int fd = attr_value(attr)->number;
-	return internal_open_fdset(ctx, 1, &fd);
+	return open_fdset_locked(ctx, 1, &fd);
 }
 
 const struct attr_ops file_fd_ops = {
@@ -447,12 +450,15 @@ kdump_set_filenames(kdump_ctx_t *ctx, unsigned n, const char *const *names)
 	kdump_status status;
 
 	clear_error(ctx);
+	rwlock_wrlock(&ctx->shared->lock);
 
 	if (get_num_files(ctx) < n &&
 	    (status = set_attr_number(ctx, gattr(ctx, GKI_num_files),
-				      ATTR_PERSIST, n)) != KDUMP_OK)
-		return set_error(ctx, status,
-				 "Cannot initialize file set size");
+				      ATTR_PERSIST, n)) != KDUMP_OK) {
+		status = set_error(ctx, status,
+				   "Cannot initialize file set size");
+		goto out;
+	}
 
 	for (dir = gattr(ctx, GKI_dir_file_set)->dir; dir; dir = dir->next) {
 		struct attr_data *child;
@@ -470,25 +476,36 @@ kdump_set_filenames(kdump_ctx_t *ctx, unsigned n, const char *const *names)
 		if (names[fidx]) {
 			status = set_attr_string(ctx, child, ATTR_PERSIST,
 						 names[fidx]);
-			if (status != KDUMP_OK)
-				return set_error(ctx, status, "%s",
-						 err_filename(ctx, fidx));
+			if (status != KDUMP_OK) {
+				status = set_error(ctx, status, "%s",
+						   err_filename(ctx, fidx));
+				goto out;
+			}
 		} else
 			clear_attr(ctx, child);
 	}
+	status = KDUMP_OK;
 
-	return KDUMP_OK;
+ out:
+	rwlock_unlock(&ctx->shared->lock);
+	return status;
 }
 
 DEFINE_ALIAS(open_fdset);
 
-kdump_status
-kdump_open_fdset(kdump_ctx_t *ctx, unsigned nfds, const int *fds)
+/** Open a set of dump files.
+ * @param ctx   Dump file object.
+ * @param nfds  Number of file descriptors.
+ * @param fds   File descriptors.
+ * @returns     Error status.
+ *
+ * The caller must hold the shared lock for writing.
+ */
+static kdump_status
+open_fdset_locked(kdump_ctx_t *ctx, unsigned nfds, const int *fds)
 {
 	struct attr_data *dir;
 	kdump_status status;
-
-	clear_error(ctx);
 
 	/* Make sure we do not use a stale file descriptor value. */
 	clear_all_fds(ctx);
@@ -513,6 +530,18 @@ kdump_open_fdset(kdump_ctx_t *ctx, unsigned nfds, const int *fds)
 	}
 
 	return KDUMP_OK;
+}
+
+kdump_status
+kdump_open_fdset(kdump_ctx_t *ctx, unsigned nfds, const int *fds)
+{
+	kdump_status status;
+
+	clear_error(ctx);
+	rwlock_wrlock(&ctx->shared->lock);
+	status = open_fdset_locked(ctx, nfds, fds);
+	rwlock_unlock(&ctx->shared->lock);
+	return status;
 }
 
 /* struct new_utsname is inside struct uts_namespace, preceded by a struct
